@@ -446,12 +446,16 @@ fn one_probe_case(case: u64, seed: u64, sh: &mut Shard) -> V {
         3 => 1,
         _ => 2,
     };
-    dev.device_id = match rng.below(8) {
+    dev.device_id = match rng.below(10) {
         0 => 0,
         1 => rng.below(40) as u32,
         2 => 14 + rng.below(2) as u32, // 14, 15 are not assigned in this library
         3 => 26 + rng.below(100) as u32,
         4 => 0xffff_ffff,
+        // a known id in the low byte / low half-word of a wider value; an arbitrary 32-bit value
+        5 => *rng.pick(&[1u32, 2, 3, 4, 5, 9, 13, 16, 18, 19, 25]) | (1 + rng.below(0xff_ffff) as u32) << 8,
+        6 => *rng.pick(&[1u32, 2, 4, 16, 19]) | (1 + rng.below(0xffff) as u32) << 16,
+        7 => rng.next() as u32,
         _ => *rng.pick(&[1u32, 2, 3, 4, 5, 9, 13, 16, 18, 19, 25]),
     };
     let size = *rng.pick(&[0usize, 0xff, 0x100, 0x101, 0x200, 0x1000, 4, 0xfc]);
